@@ -227,6 +227,46 @@ def robustness_checks():
     if len(log) != c3.k - 1:
         bad.append(dict(script=dict(kind='sub-generator whose get_examples is wrapped after construction'),
                         violated='refills bypass the wrapper', wrapper_calls=len(log), draws=c3.k - 1))
+    # a deep copy / pickle of the batch generator taken in mid-stream (a checkpoint) does not disturb the stream of the original
+    import copy as _copy, pickle as _pickle
+    for how in ('deepcopy', 'pickle'):
+        src = Ints(torch.float64)
+        bg = BatchGenerator(src, 2)
+        delivered = bg.get_examples().tolist()
+        try:
+            twin = _copy.deepcopy(bg) if how == 'deepcopy' else _pickle.loads(_pickle.dumps(bg))
+        except Exception:
+            twin = None
+        for _ in range(4):
+            delivered += bg.get_examples().tolist()
+        if delivered != src.given[:len(delivered)]:
+            bad.append(dict(script=dict(kind=f'{how} of the batch generator taken between two batches'),
+                            violated='after the copy was taken the original no longer delivers the draws in order without loss', delivered=delivered[:10], drawn=src.given[:10]))
+    # coordinates of different rank in one draw ((N,) next to (N, 1)): each keeps its shape, rows stay paired
+    class Ranks(BaseGenerator):
+        def __init__(self):
+            super().__init__()
+            self.size, self.k = 3, 0
+
+        def get_examples(self):
+            x = torch.arange(3, dtype=torch.float64) + 3 * self.k
+            self.k += 1
+            return x, (x + 0.5).reshape(-1, 1)
+    bg = BatchGenerator(Ranks(), 4)
+    for call in range(3):
+        b = bg.get_examples()
+        if tuple(b[0].shape) != (4,) or tuple(b[1].shape) != (4, 1) or (b[0] + 0.5).tolist() != b[1].reshape(-1).tolist():
+            bad.append(dict(script=dict(kind='draws with an (N,) and an (N, 1) coordinate'), violated=f'batch {call}: shapes {tuple(b[0].shape)}, {tuple(b[1].shape)} '
+                            '(expected (4,), (4, 1)) or rows not paired'))
+            break
+    # a batch generator over a batch generator: the outer stream is the inner stream (which is the stream of the source)
+    src = Ints(torch.float64)
+    inner = BatchGenerator(src, 2)
+    outer = BatchGenerator(inner, 5)
+    delivered = [v for _ in range(3) for v in outer.get_examples().tolist()]
+    if delivered != src.given[:len(delivered)]:
+        bad.append(dict(script=dict(kind='BatchGenerator(BatchGenerator(source, 2), 5)'), violated='delivered batches are not a prefix of the draws of the source',
+                        delivered=delivered[:10], drawn=src.given[:10]))
     class Widening(BaseGenerator):
         def __init__(self):
             super().__init__()
